@@ -72,6 +72,23 @@ func buildLarge(in LargeIn) cty.Value {
 		return buildDeep(in.Kind, n, leaf)
 	}
 	switch in.Kind {
+	case "exactlen":
+		// a not-null unknown list of exactly n members (the builder turns it
+		// into a known list of n unknown members)
+		return cty.UnknownVal(cty.List(cty.String)).Refine().NotNull().CollectionLengthLowerBound(n).CollectionLengthUpperBound(n).NewValue()
+	case "exactlen-nullable", "exactlen-set", "exactlen-map":
+		ty := cty.List(cty.String)
+		switch in.Kind {
+		case "exactlen-set":
+			ty = cty.Set(cty.String)
+		case "exactlen-map":
+			ty = cty.Map(cty.String)
+		}
+		b := cty.UnknownVal(ty).Refine().CollectionLengthLowerBound(n).CollectionLengthUpperBound(n)
+		if in.Kind != "exactlen-nullable" {
+			b = b.NotNull()
+		}
+		return b.NewValue()
 	case "string":
 		return cty.StringVal(strings.Repeat("x", n))
 	case "prefix":
@@ -121,7 +138,7 @@ func buildLarge(in LargeIn) cty.Value {
 
 func init() {
 	facet.Register(facet.F[LargeIn]{
-		Prop: "C16", Name: "roundtrip/large", Rule: "lists, sets, maps, tuples and objects with n members, strings of n bytes and unknown strings with an n-byte prefix, n drawn from the MessagePack header boundaries and internal limits {0,1,15,16,17,31,32,33,255,256,257,300,1023,1024,1025,4096,65535,65536,65537}, under the value's own type or the dynamic pseudo-type; and a leaf (known, null, unknown for MessagePack) below n containers, n in {20,64,99,100,101,128,255,256,300,1000} (lists, tuples, objects, maps, and the four in turn): the round trip must return the same type and a RawEqual value (for the prefix case: a prefix of the original prefix, not-null not invented). Enumerated exhaustively over (kind, n, member kind, constraint); non-trivial = n >= 16",
+		Prop: "C16", Name: "roundtrip/large", Rule: "lists, sets, maps, tuples and objects with n members, strings of n bytes and unknown strings with an n-byte prefix, n drawn from the MessagePack header boundaries and internal limits {0,1,15,16,17,31,32,33,255,256,257,300,1023,1024,1025,4096,65535,65536,65537}, under the value's own type or the dynamic pseudo-type; unknown lists / sets / maps refined to exactly n members, not-null or nullable (a not-null list of exactly n members is a known list of n unknown members); and a leaf (known, null, unknown for MessagePack) below n containers, n in {20,64,99,100,101,128,255,256,300,1000} (lists, tuples, objects, maps, and the four in turn): the round trip must return the same type and a RawEqual value (for the prefix case: a prefix of the original prefix, not-null not invented). Enumerated exhaustively over (kind, n, member kind, constraint); non-trivial = n >= 16",
 		Exhaustive: func() []LargeIn {
 			var out []LargeIn
 			for _, kind := range []string{"list", "set", "map", "tuple", "object"} {
@@ -160,6 +177,14 @@ func init() {
 			for _, n := range []int{65535, 65536, 65537} {
 				out = append(out, LargeIn{Kind: "list", N: n, Elem: "num"}, LargeIn{Kind: "map", N: n, Elem: "bool"})
 			}
+			for _, kind := range []string{"exactlen", "exactlen-nullable", "exactlen-set", "exactlen-map"} {
+				for _, n := range largeSizes {
+					if n == 0 || (kind == "exactlen" && n > 4096) {
+						continue
+					}
+					out = append(out, LargeIn{Kind: kind, N: n, Elem: "str"}, LargeIn{Kind: kind, N: n, Elem: "str", Dyn: true})
+				}
+			}
 			return out
 		},
 		Check: func(c *facet.Ctx, in LargeIn) error {
@@ -195,6 +220,21 @@ func init() {
 			}
 			if !got.Type().Equals(v.Type()) {
 				return facet.Failf("type-differs", "%s with n=%d came back with type %s", in.Kind, in.N, got.Type().FriendlyName())
+			}
+			if strings.HasPrefix(in.Kind, "exactlen-") && !v.IsKnown() {
+				// unknown collection of exactly n members: the decoded value must
+				// still be unknown, admit a collection of n members, and must not
+				// have become not-null
+				if got.IsKnown() {
+					return facet.Failf("known-invented", "unknown %s of exactly %d members came back known: %#v", in.Kind, in.N, got)
+				}
+				if lo, hi := got.Range().LengthLowerBound(), got.Range().LengthUpperBound(); lo > in.N || hi < in.N {
+					return facet.Failf("length-narrowed", "unknown %s of exactly %d members came back with length bounds %d..%d", in.Kind, in.N, lo, hi)
+				}
+				if got.Range().DefinitelyNotNull() && !v.Range().DefinitelyNotNull() {
+					return facet.Failf("notnull-invented", "decoded unknown is not-null, the original was not")
+				}
+				return nil
 			}
 			if in.Kind == "prefix" {
 				if got.IsKnown() {
